@@ -613,7 +613,11 @@ class OrConstraint(AbstractConstraint):
                     ],
                 ]
                 yield Constraint(
-                    varname, ConstraintType.one_of, True, list(set(constraints))
+                    varname,
+                    ConstraintType.one_of,
+                    True,
+                    # de-duplicate but keep the order (set order depends on object addresses)
+                    list(dict.fromkeys(constraints)),
                 )
 
     def _constraint_from_list(
